@@ -57,3 +57,52 @@ def run_harness( DutType, n, eo, do, msgs, order=None ):
   while not th.done() and cyc < 4 * len( eo ) + 10:
     th.sim_tick(); cyc += 1
   return th.log
+
+
+class AdapterHarness( Component ):
+  """a cycle-level producer that REUSES one message object drives an en/rdy RTL queue through the library's
+  RecvCL2SendRTL adapter; a consumer block dequeues when offered.  Accepted and delivered messages are logged."""
+  def construct( s, QType, n, eo, do, msgs, MsgType ):
+    from pymtl3.stdlib.ifcs.send_recv_ifcs import RecvCL2SendRTL
+    s.ad = RecvCL2SendRTL( MsgType )
+    s.q  = QType( MsgType, n )
+    s.ad.send //= s.q.enq
+    s.k = len( eo ); s.t = 0
+    s.eo, s.do, s.msgs = eo, do, msgs
+    s.scratch = MsgType()          # the producer's only message object, overwritten every cycle
+    s.accepted = []; s.delivered = []
+
+    @update_once
+    def up_prod():
+      if not s.reset and s.t < s.k:
+        s.scratch @= s.msgs[ s.t ]
+        if s.eo[ s.t ] and s.ad.recv.rdy():
+          s.ad.recv( s.scratch )
+          s.accepted.append( s.t )
+
+    @update
+    def up_cons():
+      s.q.deq.en @= s.q.deq.rdy & ~s.reset & ( s.do[ s.t ] if s.t < s.k else 0 )
+
+    def log_it( v ): s.delivered.append( v + 0 )      # (a copy of the value)
+
+    @update_ff
+    def up_log():
+      if ~s.reset & s.q.deq.en: log_it( s.q.deq.ret )
+
+    @update_once
+    def up_adv():
+      if not s.reset: s.t += 1
+
+    s.add_constraints( U( up_prod ) < U( up_adv ) )
+
+  def line_trace( s ): return ""
+
+
+def run_adapter_harness( QType, n, eo, do, msgs, MsgType ):
+  th = AdapterHarness( QType, n, eo, do, msgs, MsgType )
+  th.elaborate()
+  th.apply( DefaultPassGroup() )
+  th.sim_reset()
+  for _ in range( len( eo ) + 2 * n + 4 ): th.sim_tick()
+  return th.accepted, th.delivered
